@@ -22,6 +22,7 @@ mod front;
 mod corr_chunks;
 mod cli;
 mod io;
+mod sched;
 mod meta_oracle;
 mod raw_api;
 
@@ -129,6 +130,7 @@ fn main() {
         "corr-cli" => cli::corr(&mut ctx),
         "oracle-cli" => cli::oracle(&mut ctx),
         "corr-io" => io::corr(&mut ctx),
+        "corr-sched" => sched::corr(&mut ctx),
         "oracle-meta" => meta_oracle::oracle(&mut ctx),
         "corr-raw" => raw_api::corr(&mut ctx),
         "oracle-c11" => raw_api::oracle(&mut ctx),
